@@ -273,7 +273,7 @@ def run(ctx: core.Ctx) -> None:
     jobs = plan(ctx.tier)
     sels = selector_cases(ctx.tier)
     ctx.rule = (f'(A) every sequence of <= 2 commands (quick: 1 in 9 of the length-3 ones, thorough: all) over {len(COMMANDS)} commands (announce/withdraw to all or one peer, IPv6, out-of-range value, bad mask, missing next hop, unknown verb, no matching peer, eor, flush, ping), API v6 and v4 syntax; '
-                'every single cut (thorough: every pair of cuts) and byte-by-byte delivery for 4 two-command streams; (B) every selector: 7 address forms (one a truncated address, one neighbor whose every value extends another neighbor's) x every subset of {local-as, peer-as, router-id} x 4 values each (one only the beginning of values in use), plain and bracket form, and bracket lists of two; '
+                'every single cut (thorough: every pair of cuts) and byte-by-byte delivery for 4 two-command streams; (B) every selector: 7 address forms (one a truncated address, one neighbor whose every value extends those of another neighbor) x every subset of {local-as, peer-as, router-id} x 4 values each (one only the beginning of values in use), plain and bracket form, and bracket lists of two; '
                 'non-trivial = distinct (reply sequence, final RIBs) outcome')
     ctx.assumptions += ['reference model: one terminal reply per command in order; refused commands change nothing; a selector matches a neighbor iff its address matches (or *) and every term equals the neighbor setting']
     pool = mp.Pool(min(16, os.cpu_count() or 1))
